@@ -18,6 +18,24 @@ TIERS = {
 }
 
 
+def near_misses(fen):
+    """Positions that agree with `fen` on every colour-blind per-piece-type occupancy but differ in colours:
+    for one piece kind (or all non-king men) the colours are exchanged in place.  A memo / cache inside the
+    evaluator keyed on partial information answers one of them with the other's value, which the purity
+    checks of EvalTrace.tla (same position, same value, whatever was evaluated in between) then reject.
+    Candidates only: TLC decides Valid and skips the others."""
+    f = fen.split()
+    rows = f[0].split("/")
+    out = []
+    for kinds in ("p", "n", "b", "r", "q", "pnbrq"):
+        if not any(c.lower() in kinds for c in f[0] if c.isalpha()):
+            continue
+        new = "/".join("".join(c.swapcase() if c.lower() in kinds else c for c in r) for r in rows)
+        if new != f[0] and not any(o.split()[0] == new for o in out):
+            out.append(" ".join([new, f[1], "-", "-"]))
+    return out
+
+
 def _validate(exe, work, fens_path, seed, batch, tag, chunk_base=0):
     p = os.path.join(work, "eval_%s.ndjson" % tag)
     vlib.run_harness(exe, ["eval-record", "--fens", fens_path, "--seed", seed, "--batch", batch, "--chunk-base", chunk_base], stdout_path=p)
@@ -70,9 +88,17 @@ def run(prop, tier, seed):
                     for x in fens:
                         f.write(x + "\n")
                         n += 1
-                for l in open(emit):
-                    f.write(json.loads(l)["fen"] + "\n")
+                        for v in near_misses(x)[:2]:
+                            f.write(v + "\n")
+                            n += 1
+                for j, l in enumerate(open(emit)):
+                    fen = json.loads(l)["fen"]
+                    f.write(fen + "\n")
                     n += 1
+                    if j % 5 == 0:
+                        for v in near_misses(fen):
+                            f.write(v + "\n")
+                            n += 1
             return r, n, _validate(exe, work, fl, seed * 17 + i, T["batch"], str(i))
         quads = 0
         positions = 0
